@@ -171,12 +171,23 @@ pub fn check_system_call_parameter(
                         value.get_relative_values(),
                     );
                 if contains_string_constant {
-                    if let Ok(global_string) = runtime_memory_image
-                        .read_string_until_null_terminator(
-                            &value.get_absolute_value().unwrap().try_to_bitvec().unwrap(),
-                        )
-                    {
-                        parameter_domain.widen(&BricksDomain::from(global_string.to_string()));
+                    // The absolute value may contain more than one address (several constants merged),
+                    // in which case no single global string can be read.
+                    let global_string = value
+                        .get_absolute_value()
+                        .unwrap()
+                        .try_to_bitvec()
+                        .ok()
+                        .and_then(|address| {
+                            runtime_memory_image
+                                .read_string_until_null_terminator(&address)
+                                .ok()
+                        });
+                    if let Some(global_string) = global_string {
+                        // A `Top` domain (some pointer target has no known string) cannot be widened.
+                        if matches!(parameter_domain, BricksDomain::Value(_)) {
+                            parameter_domain.widen(&BricksDomain::from(global_string.to_string()));
+                        }
                     } else {
                         parameter_domain = BricksDomain::Top;
                     }
